@@ -8,3 +8,5 @@ def check(rep, tier):
     tracer_trace.run(rep, tier, only=("TR-result", "TR-start", "TR-exception"))
     tracer_primitive.run(rep, tier, only=("W3", "W2"))
     core_rules.run(rep, tier, parts=("defvjp",))
+    from contracts import programs_exact
+    programs_exact.run_zero(rep)
